@@ -25,7 +25,7 @@ Python → model
   dropped reference → `Heap.collect` (reachability from the roots).
 
 Defects of the unchanged tree are `Quirks` (DESIGN §2.4); `Quirks.original` is the tree the design was written
-against, `Quirks.asIs` the code as it is (one repair applied).
+against, `Quirks.asIs` the code as it is (the repairs made so far applied).
 The executable specification (`Spec`, `specStep`) is the same history read at the level of objects only:
 no node indices, no ids, no index structures; an instance that dies disappears at once.
 -/
@@ -43,7 +43,8 @@ structure Quirks where
   /-- `remove_node` pops `id(wrapped.instance)` = `id(None)` for a dead instance: `_instance_index` keeps the
   entry (F-C20-2, same repair as F-C14-1) -/
   keepDeadIndex : Bool
-  /-- a dead, not yet swept instance met by the transitive inference: `update_value(None, …)` raises (F-C14-2) -/
+  /-- a dead, not yet swept instance met by the transitive inference: `update_value(None, …)` raises (F-C14-2);
+  repaired: the transitive inference leaves out relations whose other end is dead -/
   deadEndpointRaises : Bool
   /-- a re-evaluated query object yields its cached domain instead of asking the registry again (F-C13-1) -/
   cachedDomain : Bool
@@ -57,9 +58,10 @@ structure Quirks where
 
 /-- the tree as it was before `fix: SymbolGraph.remove_node purges the relation index …` (c18b52a) -/
 def Quirks.original : Quirks := ⟨true, true, true, true, true, true⟩
-/-- the code as it is: `fixes/C14_purge_relation_index.diff` (commit c18b52a) and the de-duplication of
-`recursive_subclasses` (F-C13-2, fix commit in /repo) are applied, the other defects are open -/
-def Quirks.asIs : Quirks := ⟨false, false, true, true, true, false⟩
+/-- the code as it is: `fixes/C14_purge_relation_index.diff` (commit c18b52a), the de-duplication of
+`recursive_subclasses` (F-C13-2, fix commit in /repo) and `fixes/C14_dead_neighbour_in_transitive_inference.diff`
+(F-C14-2: dead, unswept neighbours are left out of the transitive inference) are applied, the other defects are open -/
+def Quirks.asIs : Quirks := ⟨false, false, false, true, true, false⟩
 def Quirks.none : Quirks := ⟨false, false, false, false, false, false⟩
 
 inductive Kind where
